@@ -16,7 +16,7 @@ COMMON_ASSUMPTIONS = [
     "solver: z3 4.8.12 over a pipe (QF_BV terms, no set-logic), per-query timeout, z3 5.1.0 one-shot fallback on unknown; any (error answer is treated as inconclusive",
 ]
 
-B2 = {"BF": 2, "Lmax": 2}
+B2 = {"BF": 2, "Lmax": 2, "KW": 8}
 
 def b(**kw):
     d = dict(B2)
@@ -35,6 +35,17 @@ PROPERTIES = {
         "must_reach": ["C01.step.iter-seq", "C01.step.get-found", "C01.h.delete.result"],
         "bounds_statement": "histories of <= K operations (insert / delete with arbitrary key and value / persist+reload / clone / persist) from the empty tree over symbolic keys (any order, ties, any layer <= Lmax); battery after every operation",
         "outside": ["histories longer than K", "built-in key types at tree level (covered per type by the C14 leaf harnesses)", "default JSON marshaler", "branch factors other than those listed"],
+        "assumptions": COMMON_ASSUMPTIONS,
+    },
+    "C02": {
+        "runs": {
+            "quick": [H("HarnessC02a", b(N=3, K1=1, CACHE=1, PERSISTFIRST=1, HREQ=-1, TMASK=7))],
+            "thorough": [H("HarnessC02a", b(N=3, K1=1, CACHE=c, PERSISTFIRST=p, HREQ=-1, TMASK=15), sample_every=500) for c in (0, 1, 2) for p in (0, 1)] +
+                        [H("HarnessC02a", b(N=2, K1=2, CACHE=1, PERSISTFIRST=1, HREQ=-1, TMASK=15), sample_every=2000)],
+        },
+        "must_reach": ["C02.clone.iter-seq", "C02.root-shared-cache.iter-seq", "C02.root-no-cache.iter-seq", "C02.cursor.seq", "C02.original.iter-seq"],
+        "bounds_statement": "base version of N ascending entries (optionally persisted and re-loaded through the cache first), captured by Clone, by Cursor and by MakeRoot; K1 symbolic operations (insert/delete/persist) each on the original, a second clone, or one of two trees re-loaded from the retained root through the same cache; every captured version re-observed after every operation (clone, LoadMast via the shared cache, LoadMast cache-less, cursor)",
+        "outside": ["more than K1 later operations", "the real ARC cache (harness caches: none, unbounded, FIFO capacity 1)"],
         "assumptions": COMMON_ASSUMPTIONS,
     },
     "C04": {
